@@ -24,7 +24,7 @@ RULE = (
 ASSUMPTIONS = ["dense reference; two circuits are equivalent iff they have the same registers and the same (unnormalised) state in every "
                "outcome branch, which does not depend on the forced-outcome convention or on the order of commuting measurements"]
 REQUIRED_CLASSES = {"pairs": ["edit:copy", "edit:rewrap", "edit:identities", "edit:relinearise", "edit:swap_ct", "edit:gate_kind",
-                              "edit:swap_adjacent", "edit:retarget", "edit:rename", "reported_equal_noncopy", "iso_equal_direct_unequal"]}
+                              "edit:swap_adjacent", "edit:swap_two_qubit_order", "edit:retarget", "edit:rename", "reported_equal_noncopy", "iso_equal_direct_unequal"]}
 
 METHODS = ["direct", "is_isomorphic"]
 
@@ -166,6 +166,22 @@ def apply_edit(desc, edit):
                 ops_[j], ops_[j + 1] = b, a
                 break
         return dict(desc, ops=ops_), "swap_adjacent"
+    if kind == "swap_two_qubit_order":
+        # two multi-register operations that share exactly one wire (different partner registers): exchange their order
+        for k in range(n):
+            a = (i + k) % n
+            if len(gc.qregs(ops_[a])) != 2:
+                continue
+            for b in range(a + 1, n):
+                if len(gc.qregs(ops_[b])) != 2:
+                    continue
+                shared = set(gc.qregs(ops_[a])) & set(gc.qregs(ops_[b]))
+                between = [c for c in range(a + 1, b) if set(gc.qregs(ops_[c])) & (set(gc.qregs(ops_[a])) | set(gc.qregs(ops_[b])))]
+                if len(shared) == 1 and not between:
+                    x = ops_.pop(b)
+                    ops_.insert(a, x)
+                    return dict(desc, ops=ops_), "swap_two_qubit_order"
+        return dict(desc, ops=ops_), "swap_two_qubit_order"
     if kind == "retarget":
         d = ops_[i]
         t = d[1]
@@ -251,7 +267,7 @@ def check_pair(case, sub="pairs"):
         cl.append("reported_equal_noncopy")
     if res.get("is_isomorphic") and not res.get("direct", True):
         cl.append("iso_equal_direct_unequal")
-    changing = [k for k in kinds if k in ("swap_ct", "gate_kind", "swap_adjacent", "retarget", "rename", "creg")]
+    changing = [k for k in kinds if k in ("swap_ct", "gate_kind", "swap_adjacent", "swap_two_qubit_order", "retarget", "rename", "creg")]
     nontrivial = (any(res.values()) and noncopy) or len(changing) == 1
     return Info(nontrivial=nontrivial, classes=cl)
 
@@ -305,7 +321,7 @@ def check_list(case, sub="lists"):
 
 
 EDIT = st.tuples(st.sampled_from(["copy", "rewrap", "rewrap", "identities", "relinearise", "swap_ct", "gate_kind", "swap_adjacent",
-                                  "retarget", "rename", "creg"]), st.integers(0, 63), st.integers(0, 63)).map(list)
+                                  "swap_two_qubit_order", "swap_two_qubit_order", "retarget", "rename", "creg"]), st.integers(0, 63), st.integers(0, 63)).map(list)
 
 
 @st.composite
@@ -326,8 +342,27 @@ def st_small_circuit(draw, max_q=4, max_len=12):
     return {"ne": ne, "np": np_, "nc": nc, "ops": keep}
 
 
+@st.composite
+def st_entangling_circuit(draw):
+    """3-4 quantum registers, mostly two-register operations with a few Hadamards"""
+    ne = draw(st.integers(1, 3))
+    np_ = draw(st.integers(max(1, 3 - ne), 4 - ne)) if 4 - ne >= 1 else 1
+    regs = [("e", i) for i in range(ne)] + [("p", i) for i in range(np_)]
+    ops_ = [["H", t, r] for t, r in regs if draw(st.booleans())]
+    for _ in range(draw(st.integers(2, 6))):
+        a = draw(st.integers(0, len(regs) - 1))
+        b = draw(st.integers(0, len(regs) - 2))
+        if b >= a:
+            b += 1
+        ops_.append([draw(st.sampled_from(["CNOT", "CNOT", "CZ"])), regs[a][0], regs[a][1], regs[b][0], regs[b][1]])
+        if draw(st.integers(0, 3)) == 0:
+            t, r = draw(st.sampled_from(regs))
+            ops_.append([draw(st.sampled_from(gc.ONE)), t, r])
+    return {"ne": ne, "np": np_, "nc": 1, "ops": ops_}
+
+
 def strat_pairs(tier):
-    base = st_small_circuit()
+    base = st.one_of(st_small_circuit(), st_entangling_circuit())
     edited = st.fixed_dictionaries({"base": base, "edits": st.lists(EDIT, min_size=0, max_size=3), "other": st.none()})
     single = st.fixed_dictionaries({"base": base, "edits": st.lists(EDIT, min_size=1, max_size=1), "other": st.none()})
     indep = st.tuples(base, st.data()).map(lambda t: t[0]).flatmap(
